@@ -153,7 +153,18 @@ def passes(flt, r):
     return all(atom_holds(a, r) for a in flt)
 
 
-def query_string(flt):
+def query_string(flt, ws=0):
+    """ws: 0 = `a == 1 and b > 2`, 1 = `a==1 and b>2`, 2 = double blanks – the same filter, other bytes"""
+    q = _query_string(flt)
+    if ws == 1:
+        for op in ("==", "!=", "<=", ">=", "<", ">"):
+            q = q.replace(f" {op} ", op)
+    elif ws == 2:
+        q = q.replace(" ", "  ")
+    return q
+
+
+def _query_string(flt):
     out = []
     for col, op, c in flt:
         if op == "in":
@@ -212,8 +223,46 @@ def _run(case, _is_prior=False):
         def __call__(self, *a, **k):
             return self.fn(*a, **k)
 
-    def cb(fn):
+    shared = {}
+    share = bool(case.get("share"))
+    hetero = bool(case.get("hetero"))
+
+    def cb(fn, key=None):
+        """`share`: ONE callable object per key handed to every registration that needs it (two observations with the same
+        aggregator / to_observe / formatter, two stratifications with the same mapper)"""
+        if share and key is not None:
+            if key not in shared:
+                shared[key] = Callable_(fn) if objs else fn
+            return shared[key]
         return Callable_(fn) if objs else fn
+
+    def vary(fn, kind):
+        """`hetero`: the same callable returns its (equal) result in another representation from call to call"""
+        if not hetero:
+            return fn
+        n = [0]
+
+        def wrapped(*a):
+            n[0] += 1
+            v = fn(*a)
+            k = n[0] % 3
+            if kind == "vec":          # Series of labels: str dtype / object dtype / categorical with its own categories
+                return v.astype(object) if k == 0 else v.astype("category") if k == 1 else v
+            if kind == "row":          # one label: str / numpy.str_
+                import numpy as np
+                return np.str_(v) if k == 0 else v
+            if kind == "num":          # a number: python int or float / numpy scalar
+                import numpy as np
+                if isinstance(v, pd.Series):
+                    return v.astype("float32").astype("float64") if k == 0 else v
+                return float(v) if k == 0 else np.float64(v) if k == 1 else v
+            if kind == "pipe":         # pipeline values: float64 / int64
+                return v.astype("int64") if k == 0 else v
+            if kind == "bool":
+                import numpy as np
+                return np.bool_(v) if k == 0 else v
+            return v
+        return wrapped
 
     def new_values(n, sids):
         xs = []
@@ -265,7 +314,7 @@ def _run(case, _is_prior=False):
             self.creator = b.population.get_simulant_creator()
             self.tv = b.population.get_view(["tracked"])
             self.pvview = b.population.get_view(["y", "sid", "tracked"])
-            b.value.register_value_producer("pv", source=self._pv, requires_columns=["y", "sid"])
+            b.value.register_value_producer("pv", source=vary(self._pv, "pipe"), requires_columns=["y", "sid"])
             b.value.register_value_producer("pw", source=self._pw, requires_columns=["y", "sid"])
             b.value.register_value_modifier("pw", modifier=lambda idx, v: v + 1.0)
             for k, ph in enumerate(PH):
@@ -287,7 +336,10 @@ def _run(case, _is_prior=False):
         def mutate(self, k, when):
             sim = holder["sim"]
             pop = sim.get_population()
+            if self.step in (T.get("freeze") or []):
+                return                          # nothing changes: the next event sees exactly the same population again
             nb = traj.randint(0, T["max_births"]) if traj.random() < T["p_birth"] else 0
+            retrack = []
             changes = {"g": {}, "h": {}, "x": {}, "y": {}, "c": {}}
             untrack = []
             tracked = pop["tracked"].to_dict() if len(pop) else {}
@@ -297,6 +349,8 @@ def _run(case, _is_prior=False):
                     changes[col][sid] = new_values(1, [sid])[col][0]
                 if tracked[sid] and traj.random() < T["p_untrack"]:
                     untrack.append(sid)
+                elif not tracked[sid] and T.get("p_retrack") and traj.random() < T["p_retrack"]:
+                    retrack.append(sid)         # untracked simulants becoming tracked again
             u = case.get("unknown")
             if u and when == "pre" and u["step"] == self.step and u["phase"] == k and len(pop):
                 sid = list(pop.index)[u["who"] % len(pop)]
@@ -307,6 +361,8 @@ def _run(case, _is_prior=False):
                     self.population_view.update(pd.Series(list(ch.values()), index=list(ch.keys()), name=col, dtype=dt))
             if untrack:
                 self.tv.update(pd.Series(False, index=untrack, name="tracked"))
+            if retrack:
+                self.tv.update(pd.Series(True, index=retrack, name="tracked"))
             if nb:
                 self.creator(nb)
             elif T.get("zero_births") and traj.random() < 0.3:
@@ -331,6 +387,23 @@ def _run(case, _is_prior=False):
             res = sim.get_results()
             out["events"][-1]["after"] = {o["name"]: canon_result(res.get(o["name"]), o, pd, tick)
                                           for o in case["obs"] if o["when"] == PH[k] and o["name"] in res}
+            if case.get("reread"):
+                # results requested twice: equal; and whatever the caller does to the frames it was handed must not reach
+                # the running results
+                res2 = sim.get_results()
+                again = {o["name"]: canon_result(res2.get(o["name"]), o, pd, tick)
+                         for o in case["obs"] if o["when"] == PH[k] and o["name"] in res2}
+                if again != out["events"][-1]["after"] and out.get("reread_differs") is None:
+                    out["reread_differs"] = len(out["events"]) - 1
+                for r in (res, res2):
+                    for df in r.values():
+                        try:
+                            for c in df.columns:
+                                if c in VALUE_COLS:
+                                    df[c] = -7.0
+                            df.drop(df.index, inplace=True)
+                        except Exception:  # noqa: BLE001
+                            pass
             self.mutate(k, "post")
             if k == 3:
                 self.step += 1
@@ -339,6 +412,9 @@ def _run(case, _is_prior=False):
         kind, name, ex = s["kind"], s["name"], s.get("excl_code")
         c = list(s.get("cats", KINDS[kind][0]))
         reg, binreg = b.results.register_stratification, b.results.register_binned_stratification
+
+        def cbm(fn):
+            return cb(vary(fn, "row" if kind in ("h2", "zw", "hp") else "vec"), ("map", kind))
 
         def edges(es):
             """the same edges as list of floats / list of ints / tuple / numpy array (`bin_edges: List[Union[int, float]]`)"""
@@ -357,7 +433,7 @@ def _run(case, _is_prior=False):
         elif kind == "cdef":
             reg(name, c, excluded_categories=ex, requires_columns=["c"])
         elif kind == "h2":
-            reg(name, c, excluded_categories=ex, mapper=cb(lambda row: row["h"].upper()), is_vectorized=False, requires_columns=["h"])
+            reg(name, c, excluded_categories=ex, mapper=cbm(lambda row: row["h"].upper()), is_vectorized=False, requires_columns=["h"])
         elif kind == "xb":
             binreg("x", name, edges(EDGES_X), c, excluded_categories=ex)
         elif kind == "pvb":
@@ -365,20 +441,20 @@ def _run(case, _is_prior=False):
         elif kind == "pwb":
             binreg("pw", name, edges(EDGES_PW), c, excluded_categories=ex, target_type="value")
         elif kind == "pvs":
-            reg(name, c, excluded_categories=ex, mapper=cb(lambda df: df["pv"].map(lambda v: "p%d" % int(v))),
+            reg(name, c, excluded_categories=ex, mapper=cbm(lambda df: df["pv"].map(lambda v: "p%d" % int(v))),
                 is_vectorized=True, requires_values=["pv"])
         elif kind == "pq":
             reg(name, c, excluded_categories=ex,
-                mapper=cb(lambda df: "q" + ((df["pv"] + df["pw"]) % 2).astype(int).astype(str)),
+                mapper=cbm(lambda df: "q" + ((df["pv"] + df["pw"]) % 2).astype(int).astype(str)),
                 is_vectorized=True, requires_values=["pw", "pv"])
         elif kind == "zw":
-            reg(name, c, excluded_categories=ex, mapper=cb(lambda row: "z%dw%d" % (int(row["pz"]), int(row["pw"]))),
+            reg(name, c, excluded_categories=ex, mapper=cbm(lambda row: "z%dw%d" % (int(row["pz"]), int(row["pw"]))),
                 is_vectorized=False, requires_values=["pz", "pw"])
         elif kind == "gy":
-            reg(name, c, excluded_categories=ex, mapper=cb(lambda df: df["g"] + (df["y"] % 2).astype(str)),
+            reg(name, c, excluded_categories=ex, mapper=cbm(lambda df: df["g"] + (df["y"] % 2).astype(str)),
                 is_vectorized=True, requires_columns=["g", "y"])
         elif kind == "hp":
-            reg(name, c, excluded_categories=ex, mapper=cb(lambda row: row["h"] + ("e" if int(row["pv"]) % 2 == 0 else "o")),
+            reg(name, c, excluded_categories=ex, mapper=cbm(lambda row: row["h"] + ("e" if int(row["pv"]) % 2 == 0 else "o")),
                 is_vectorized=False, requires_columns=["h"], requires_values=["pv"])
         elif kind == "gcat":
             def split_concat(df):
@@ -386,20 +462,20 @@ def _run(case, _is_prior=False):
                 parts = [df.loc[df["g"] == v, "g"].str.upper() for v in known]
                 parts.append(df.loc[~df["g"].isin(known), "g"].str.upper())
                 return pd.concat(parts).astype(object)
-            reg(name, c, excluded_categories=ex, mapper=cb(split_concat), is_vectorized=True, requires_columns=["g"])
+            reg(name, c, excluded_categories=ex, mapper=cbm(split_concat), is_vectorized=True, requires_columns=["g"])
         elif kind == "ysort":
             reg(name, c, excluded_categories=ex,
-                mapper=cb(lambda df: "y" + (df["y"].sort_values(ascending=False) % 3).astype(str)),
+                mapper=cbm(lambda df: "y" + (df["y"].sort_values(ascending=False) % 3).astype(str)),
                 is_vectorized=True, requires_columns=["y"])
         elif kind == "hrev":
-            reg(name, c, excluded_categories=ex, mapper=cb(lambda df: "r" + df["h"].iloc[::-1]), is_vectorized=True,
+            reg(name, c, excluded_categories=ex, mapper=cbm(lambda df: "r" + df["h"].iloc[::-1]), is_vectorized=True,
                 requires_columns=["h"])
         elif kind == "xfr":
             def frame_column(df):
                 tmp = df[["x", "y"]].copy()
                 tmp["label"] = tmp["x"].map(lambda v: "small" if v < 5 else "large")
                 return tmp.sort_values(["x", "y"], ascending=[False, True])["label"]
-            reg(name, c, excluded_categories=ex, mapper=cb(frame_column), is_vectorized=True, requires_columns=["x", "y"])
+            reg(name, c, excluded_categories=ex, mapper=cbm(frame_column), is_vectorized=True, requires_columns=["x", "y"])
         else:
             raise ValueError(kind)
 
@@ -407,17 +483,18 @@ def _run(case, _is_prior=False):
         """results_formatter variants; `canon_result` undoes them.  `inplace2` scribbles on what it is given: the raw
         results must not be affected (get_results hands out copies)"""
         f = o.get("fmt")
+        typ = o["type"]
         if f == "identity":
-            return cb(lambda measure, results: results)
+            return cb(lambda measure, results: results, ("fmt", f))
         if f == "measure":
-            return cb(lambda measure, results: results.reset_index().assign(measure=measure) if o["type"] == "add"
-                      else results.assign(measure=measure))
+            return cb(lambda measure, results: results.reset_index().assign(measure=measure) if typ == "add"
+                      else results.assign(measure=measure), ("fmt", f, typ))
         if f == "inplace2":
             def doubled(measure, results):
                 for c in list(results.columns):
                     results[c] *= 2
                 return results.reset_index()
-            return cb(doubled)
+            return cb(doubled, ("fmt", f))
         return None
 
     def register_obs(b, o, add, exc):
@@ -426,10 +503,10 @@ def _run(case, _is_prior=False):
         if o["when"] == "collect_metrics" and o.get("default_when"):
             del kw["when"]
         if o["filter"] is not None:
-            kw["pop_filter"] = query_string(o["filter"])
+            kw["pop_filter"] = query_string(o["filter"], o.get("ws", 0))
         m, rem = o["mod"], o["rem"]
         if m > 1:
-            kw["to_observe"] = cb(lambda e, m=m, rem=rem: tick(e.time) % m == rem)
+            kw["to_observe"] = cb(vary(lambda e, m=m, rem=rem: tick(e.time) % m == rem, "bool"), ("obs", m, rem))
         fm = formatter(o)
         if fm is not None:
             kw["results_formatter"] = fm
@@ -451,20 +528,20 @@ def _run(case, _is_prior=False):
         agg = o["agg"]
         rc, rv = set(fc), set(fv)
         if agg == "count":
-            kw["aggregator"] = cb(lambda df: len(df))
+            kw["aggregator"] = cb(vary(lambda df: len(df), "num"), ("agg", agg))
         elif agg == "sumy":
-            kw.update(aggregator_sources=["y"], aggregator=cb(lambda df: df["y"].sum())); rc.add("y")       # noqa: E702
+            kw.update(aggregator_sources=["y"], aggregator=cb(vary(lambda df: df["y"].sum(), "num"), ("agg", agg))); rc.add("y")       # noqa: E702
         elif agg == "sumx":
-            kw.update(aggregator_sources=["x"], aggregator=cb(lambda df: df["x"].sum())); rc.add("x")       # noqa: E702
+            kw.update(aggregator_sources=["x"], aggregator=cb(vary(lambda df: df["x"].sum(), "num"), ("agg", agg))); rc.add("x")       # noqa: E702
         elif agg == "sumpv":
-            kw.update(aggregator_sources=["pv"], aggregator=cb(lambda df: df["pv"].sum())); rv.add("pv")    # noqa: E702
+            kw.update(aggregator_sources=["pv"], aggregator=cb(vary(lambda df: df["pv"].sum(), "num"), ("agg", agg))); rv.add("pv")    # noqa: E702
         elif agg == "sumpw":
-            kw.update(aggregator_sources=["pw"], aggregator=cb(lambda df: df["pw"].sum())); rv.add("pw")    # noqa: E702
+            kw.update(aggregator_sources=["pw"], aggregator=cb(vary(lambda df: df["pw"].sum(), "num"), ("agg", agg))); rv.add("pw")    # noqa: E702
         elif agg == "sumy_nosrc":
-            kw.update(aggregator=cb(lambda df: df["y"].sum())); rc.add("y")                                  # noqa: E702
+            kw.update(aggregator=cb(vary(lambda df: df["y"].sum(), "num"), ("agg", agg))); rc.add("y")                                  # noqa: E702
         elif agg == "multi":
             kw.update(aggregator_sources=["y"],
-                      aggregator=cb(lambda df: pd.Series({"n": float(len(df)), "sy": float(df["y"].sum())}))); rc.add("y")   # noqa: E702
+                      aggregator=cb(vary(lambda df: pd.Series({"n": float(len(df)), "sy": float(df["y"].sum())}), "num"), ("agg", agg))); rc.add("y")   # noqa: E702
         kw.update(requires_columns=sorted(rc), requires_values=sorted(rv))
         if add or o.get("pass_empty"):
             kw["additional_stratifications"] = list(add)
@@ -1178,6 +1255,8 @@ def oracle(case, obs):
         return fails
     if obs["outcome"] != "ok":
         fail("simulation-raised", f"{obs['outcome']}: {obs['error']}")
+    if obs.get("reread_differs") is not None:
+        fail("results-differ-when-read-twice", f"event {obs['reread_differs']}: two consecutive get_results() calls returned different results")
     # the results read after the last step and the results read after finalize(): both must be the sum of the increments
     for label, final in (("final", obs["final"]), ("after finalize", obs.get("after_finalize"))):
         if final is None:
@@ -1252,6 +1331,23 @@ def tags(case, obs):
         t.append(f"prior-simulations-in-process:{len(case['prior'])}")
     if case.get("callobj"):
         t.append("callables-as-objects")
+    for k, lab in (("share", "one-callable-object-for-several-registrations"), ("hetero", "callables-vary-representation-between-calls"),
+                   ("reread", "results-read-twice-and-scribbled-on")):
+        if case.get(k):
+            t.append(lab)
+    if case["traj"].get("freeze"):
+        t.append("frozen-steps(identical-population-repeated)")
+    if case["traj"].get("p_retrack"):
+        t.append("retracking")
+    kinds_seen = [s["kind"] for s in case["strats"]]
+    if len(set(kinds_seen)) < len(kinds_seen) and why is None:
+        t.append("two-stratifications-one-mapper-kind")
+    fl = [(o["when"], _query_string(o["filter"])) for o in case["obs"] if o["filter"]]
+    if any(o.get("ws") for o in case["obs"]) and len(set(fl)) < len(fl):
+        t.append("same-filter-other-whitespace-same-phase")
+    fl2 = [(o["when"], str(o["filter"]), o.get("ws", 0)) for o in case["obs"]]
+    if len(set(fl2)) < len(fl2):
+        t.append("same-filter-string-same-phase")
     if obs.get("after_finalize") is not None:
         t.append("results-read-after-finalize")
     if case.get("unknown"):
@@ -1316,6 +1412,8 @@ def gen_obs(rng, k, snames, defaults):
          "rem": rng.randrange(mod)}
     if o["when"] == "collect_metrics" and rng.random() < 0.5:
         o["default_when"] = True                   # rely on the interface's default phase
+    if o["filter"] and rng.random() < 0.3:
+        o["ws"] = rng.choice([1, 2])               # the same filter in other bytes
     if rng.random() < 0.2:
         o["method"] = "stratified" if typ == "add" else "unstratified"      # the general interface methods, own updater / gatherer
     r = rng.random()
@@ -1373,6 +1471,14 @@ def gen_case(rng, tier, allow_prior=True):
         elif r < 0.42:
             s["excl_code"] = []
         strats.append(s)
+    if strats and rng.random() < 0.2:
+        # a second stratification with the SAME mapper (kind) under another name and with other exclusions
+        t = rng.choice(strats)
+        cats = KINDS[t["kind"]][0]
+        twin = {"name": t["name"] + "2", "kind": t["kind"], "excl_code": rng.choice([None, [rng.choice(cats)], []])}
+        if "edges_as" in t:
+            twin["edges_as"] = t["edges_as"]
+        strats.append(twin)
     cfg_excl = {}
     for s in strats:
         if rng.random() < 0.3:
@@ -1400,6 +1506,30 @@ def gen_case(rng, tier, allow_prior=True):
             case["slow"] = {"mod": mod, "rem": rng.randrange(mod), "days": rng.choice([2, 3])}
     if rng.random() < 0.25:
         case["callobj"] = True
+    if rng.random() < 0.3:
+        case["share"] = True
+        adders = [o for o in obs if o["type"] == "add"]
+        if len(adders) >= 2 and rng.random() < 0.7:
+            # the SAME aggregator object, the same stratifications, the same phase – and different filters: whatever is
+            # computed for one of them must not be taken for the other
+            a, b = rng.sample(adders, 2)
+            b["agg"], b["add"], b["exc"], b["when"] = a["agg"], list(a["add"]), list(a["exc"]), a["when"]
+            b.pop("default_when", None)
+            a.pop("default_when", None)
+            b["mod"], b["rem"] = a["mod"], a["rem"]
+            fa, fb = rng.sample([None, [], [["y", ">=", 2]], [["x", "<", 5.0]], [["tracked", "==", False]]], 2)
+            a["filter"], b["filter"] = fa, fb
+            for o in (a, b):
+                o.pop("ws", None)
+                o.pop("via", None)
+    if rng.random() < 0.25:
+        case["hetero"] = True
+    if rng.random() < 0.5:
+        case["reread"] = True
+    if rng.random() < 0.3:
+        traj["p_retrack"] = rng.choice([0.3, 0.6])
+    if steps >= 2 and rng.random() < 0.25:
+        traj["freeze"] = sorted(rng.sample(range(1, steps), rng.randint(1, steps - 1)))
     if allow_prior and rng.random() < 0.3:
         case["prior"] = [gen_prior(rng, tier) for _ in range(rng.choice([1, 1, 2]))]
     if rng.random() < 0.22:
@@ -1500,6 +1630,19 @@ def crowd_phase(rng, case_strats, cfg_excl, obs, snames, defaults, big):
         b["add"] = [n for n in b["add"] if n != s["name"]]
         if s["name"] in defaults:
             b["exc"] = sorted(set(b["exc"]) | {s["name"]})
+    # two groups with the SAME non-trivial filter (verbatim or in other whitespace) and different stratification sets
+    if len(others) >= 2 and rng.random() < 0.6:
+        c, d = rng.sample(others, 2)
+        flt = rng.choice([f for f in FILTERS if f])
+        c["filter"], d["filter"] = [list(x) for x in flt], [list(x) for x in flt]
+        c["when"] = d["when"] = phase
+        c.pop("ws", None)
+        d.pop("ws", None)
+        if rng.random() < 0.5:
+            d["ws"] = rng.choice([1, 2])
+        if c["type"] == "add":
+            c["add"] = sorted(set(c["add"]) | {s["name"]})
+            c["exc"] = [n for n in c["exc"] if n != s["name"]]
     # registration order: the unfiltered one first half of the time, otherwise left to the shuffle below
     if rng.random() < 0.5:
         i = obs.index(a)
@@ -1510,7 +1653,7 @@ def mk(pop, steps, strats, obs, **kw):
     case = {"pop": pop, "steps": steps, "tseed": kw.pop("tseed", 1), "traj": dict(TRAJ0, **kw.pop("traj", {})), "unknown": kw.pop("unknown", None),
             "strats": strats, "cfg_default": kw.pop("cfg_default", None), "cfg_excl": kw.pop("cfg_excl", {}), "obs": obs}
     case["order"] = kw.pop("order", [["s", i] for i in range(len(strats))] + [["o", i] for i in range(len(obs))])
-    for k in ("clock", "slow", "callobj", "prior"):
+    for k in ("clock", "slow", "callobj", "prior", "share", "hetero", "reread"):
         if k in kw:
             case[k] = kw.pop(k)
     assert not kw
@@ -1606,6 +1749,33 @@ def boundary_cases():
     out.append(mk(9, 2, [S("gcat"), S("ysort"), S("hrev"), S("xfr")],
                   [A("all4", add=["gcat", "ysort", "hrev", "xfr"]), A("two", add=["ysort", "xfr"], agg="sumpv", flt=[])],
                   traj={"p_change": 0.5}, tseed=23))
+    # ---- lessons 12-13: state that must not be shared or remembered
+    # groups with byte-identical filters / the same filter in other whitespace, different stratification sets, exclusions from
+    # code and configuration, every registration order of the three adding groups; population changes between the phases
+    import itertools as _it
+    trio = [A("by_g", flt=[["y", ">=", 1]], add=["g"]), A("by_h", flt=[["y", ">=", 1]], add=["h2"], ws=1),
+            A("plain", flt=[["y", ">=", 1]], agg="sumy", ws=2)]
+    for perm in _it.permutations(range(3)):
+        out.append(mk(8, 2, [S("g", ["b"]), S("h2")], [dict(trio[i]) for i in perm] + [Cc("rows", flt=[["y", ">=", 1]], cols=["y"])],
+                      cfg_excl={"h2": ["V"]}, traj={"p_change": 0.4, "p_untrack": 0.2, "p_retrack": 0.5}, tseed=41, reread=True))
+    # the same filter string in two phases and at every event while simulants change, get untracked and tracked again
+    out.append(mk(6, 4, [S("g"), S("gy", ["a1"])],
+                  [A("ts", when="time_step", add=["g"]), A("cm", add=["g"]), A("ts2", when="time_step", add=["gy"], agg="sumx"),
+                   A("cm2", add=["gy"], agg="sumx"), Cc("rows_ts", when="time_step"), Cc("rows_cm")],
+                  traj={"p_change": 0.5, "p_untrack": 0.4, "p_retrack": 0.6}, tseed=42, reread=True))
+    # ONE aggregator / to_observe / formatter / mapper object for several registrations with different filters and strata;
+    # two stratifications over one mapper with different exclusions; representation of the callables' results varies
+    for het in (False, True):
+        out.append(mk(7, 3, [S("g"), S("g", ["a"], name="g2"), S("gcat"), S("gcat", ["C"], name="gcat2"), S("h2")],
+                      [A("a1", add=["g"], agg="sumy", mod=2, rem=0, fmt="measure"), A("a2", add=["g2"], agg="sumy", flt=[], mod=2, rem=0, fmt="measure"),
+                       A("a3", add=["gcat"], agg="sumy", flt=[["x", "<", 5.0]]), A("a4", add=["gcat2", "h2"], agg="sumy", flt=[["x", "<", 5.0]], ws=1),
+                       A("c1", agg="count", flt=[]), A("c2", agg="count"), A("c3", agg="count", add=["h2"], when="time_step")],
+                      traj={"p_change": 0.4, "p_untrack": 0.2}, tseed=43, share=True, callobj=het, hetero=het, reread=True))
+    # exact repeats: nothing changes during steps 1 and 2 (identical populations must be counted again, every time), then it does
+    out.append(mk(5, 5, [S("g"), S("xb")], [A("n", add=["g"]), A("sx", add=["xb"], agg="sumx", flt=[]), A("e", when="time_step", mod=2, rem=0),
+                                            Cc("rows", cols=["x"])],
+                  traj={"p_change": 0.5, "p_untrack": 0.2, "p_retrack": 0.5, "freeze": [1, 2]}, tseed=44, reread=True))
+    out.append(mk(4, 4, [S("g")], [A("n", add=["g"]), A("m", add=["g"]), A("k"), A("l")], traj={"freeze": [1, 2, 3]}, tseed=45, reread=True))
     # ---- audit against notes/LESSONS.md
     # several value pipelines required at once (stratifications, filter, aggregator and included columns all through
     # requires_values; one pipeline has a modifier and returns its values in reversed row order, one comes from another component)
@@ -1715,7 +1885,7 @@ def shrink_case(case):
         c = copy.deepcopy(case)
         c["prior"] = c["prior"][:-1]
         yield c
-    for k in ("callobj", "slow", "clock"):
+    for k in ("callobj", "slow", "clock", "share", "hetero", "reread"):
         if case.get(k) and not (k == "clock" and case.get("slow")):
             c = copy.deepcopy(case)
             del c[k]
